@@ -6,6 +6,7 @@
 package main
 
 import (
+	"bufio"
 	"bytes"
 	"fmt"
 	"io"
@@ -393,15 +394,32 @@ func runHistory1(h history, corr bool) {
 		b, err = bchutil.NewBlockFromBytes(h.Input)
 		ctorCoq = "CBytes " + vh.CoqBytes(h.Input)
 	case "reader":
-		rd := bytes.NewReader(h.Input)
-		if len(h.Input)%2 == 1 {
-			// hide the concrete reader type (a plain io.Reader: no Len, no ReadByte, no Seek)
-			b, err = bchutil.NewBlockFromReader(struct{ io.Reader }{rd})
-			rep.Histogram["reader_opaque"]++
-		} else {
+		// the reader is the caller's: four concrete types, and afterwards the caller reuses its memory
+		backing := append([]byte(nil), h.Input...)
+		rd := bytes.NewReader(backing)
+		switch len(h.Input) % 4 {
+		case 0:
 			b, err = bchutil.NewBlockFromReader(rd)
+			unread = rd.Len()
+			rep.Histogram["reader_bytes.Reader"]++
+		case 1: // a plain io.Reader: no Len, no ReadByte, no Seek
+			b, err = bchutil.NewBlockFromReader(struct{ io.Reader }{rd})
+			unread = rd.Len()
+			rep.Histogram["reader_opaque"]++
+		case 2:
+			buf := bytes.NewBuffer(backing)
+			b, err = bchutil.NewBlockFromReader(buf)
+			unread = buf.Len()
+			rep.Histogram["reader_bytes.Buffer"]++
+		default:
+			br := bufio.NewReaderSize(rd, 16)
+			b, err = bchutil.NewBlockFromReader(br)
+			unread = br.Buffered() + rd.Len()
+			rep.Histogram["reader_bufio"]++
 		}
-		unread = rd.Len()
+		for i := range backing { // e.g. the caller reads the next message into the same buffer
+			backing[i] ^= 0x5a
+		}
 		ctorCoq = fmt.Sprintf("CReader %s %d%%nat", vh.CoqBytes(h.Input), unread)
 	case "blockandbytes":
 		b = bchutil.NewBlockFromBlockAndBytes(h.Msg, h.Input)
@@ -481,6 +499,7 @@ func runHistory1(h history, corr bool) {
 	wnum := map[*bchutil.Tx]int{}
 	hnum := map[*chainhash.Hash]int{}
 	wAt := map[int]*bchutil.Tx{}
+	wIdx := map[*bchutil.Tx]int{}
 	hAt := map[int]*chainhash.Hash{}
 	var blockHashPtr *chainhash.Hash
 	var bytesPtr *byte
@@ -526,11 +545,10 @@ func runHistory1(h history, corr bool) {
 		if prev, ok := wAt[i]; ok && prev != t {
 			viol(k, "C16:tx:identity", "repeated accessor calls returned different *Tx objects for the same index", map[string]interface{}{"index": i})
 		}
-		for j, other := range wAt {
-			if j != i && other == t {
-				viol(k, "C16:tx:distinct", "one *Tx object serves two indices", map[string]interface{}{"index": i, "other": j})
-			}
+		if j, ok := wIdx[t]; ok && j != i {
+			viol(k, "C16:tx:distinct", "one *Tx object serves two indices", map[string]interface{}{"index": i, "other": j})
 		}
+		wIdx[t] = i
 		wAt[i] = t
 	}
 	execOp := func(k int, o opSpec) {
@@ -641,7 +659,7 @@ func runHistory1(h history, corr bool) {
 				trace = append(trace, "txloc err")
 				return
 			}
-			raw, _ := b.Bytes()
+			raw := fresh // what Bytes() must return (checked by its own monitor); calling Bytes() here would fill the cache
 			if trusted {
 				ok := len(locs) == n
 				// exactly: transaction i sits where the header, the count and transactions 0..i-1 end
@@ -1055,6 +1073,100 @@ func main() {
 			}
 			ser := serTx(t)
 			runTxHistory("bytes", t, append(append([]byte(nil), ser...), 1, 2), 2, []topSpec{{"hash", 0}, {"index", 0}, {"hash", 0}}, false)
+		}
+	}
+
+	// --- token-carrying outputs whose script length L is below a varint boundary while prefix + L is not
+	// (the length varint covers the token prefix AND the script): every L with L <= 252 < L + prefix for three
+	// prefix sizes, and the 65535 boundary in the wider tiers.  TxLoc() comes first in the history (no bytes cached).
+	r = rng.Fork("tokenlen")
+	type tokShape struct {
+		name   string
+		amount *uint64
+		commit int
+	}
+	u := func(v uint64) *uint64 { return &v }
+	shapes := []tokShape{{"ft1", u(5), 0}, {"ft3", u(300), 0}, {"nft40ft9", u(1 << 40), 40}, {"nft1", nil, 1}}
+	var Ls []int
+	for L := 160; L <= 256; L++ {
+		Ls = append(Ls, L)
+	}
+	if cfg.Thorough() || cfg.Search {
+		for L := 65535 - 90; L <= 65537; L++ {
+			Ls = append(Ls, L)
+		}
+	}
+	for li, L := range Ls {
+		for si, sh := range shapes {
+			if L > 1000 && (li+si)%4 != 0 {
+				continue
+			}
+			var cat [32]byte
+			copy(cat[:], r.Bytes(32))
+			cat[0] |= 1
+			var commitment *[]byte
+			var capab *byte
+			if sh.commit > 0 {
+				c := r.Bytes(sh.commit)
+				commitment = &c
+				k := byte(r.Intn(3))
+				capab = &k
+			}
+			td, err := wire.NewTokenData(cat, sh.amount, commitment, capab)
+			vh.Must(err)
+			pk := r.Bytes(L)
+			pk[0] = 0x76
+			m := genBlock(r, 1+r.Intn(2), true)
+			pos := r.Intn(len(m.Transactions))
+			m.Transactions[pos].AddTxOut(wire.NewTxOut(int64(L), pk, *td))
+			n := len(m.Transactions)
+			rep.Histogram["tokenlen_"+sh.name]++
+			for _, ctor := range ctors {
+				h := mkHistory(r, ctor, m, 0)
+				h.Ops = []opSpec{{"txloc", 0}, {"txloc", 0}, {"bytes", 0}, {"txloc", 0}, {"txhash", int64(pos)}, {"tx", int64(n)}}
+				runHistory(h, false)
+			}
+		}
+	}
+
+	// --- large blocks with a SPARSE wrapper cache before the first Transactions(): whatever Tx()/TxHash()
+	// allocated for the few indices asked for, Transactions() must return every transaction
+	r = rng.Fork("sparsebig")
+	bigN := []int{257, 1025, 2500}
+	if cfg.Thorough() || cfg.Search {
+		bigN = append(bigN, 4097, 20000, 70000)
+	}
+	for _, n := range bigN {
+		m := genBlock(r, 0, false)
+		for i := 0; i < n; i++ {
+			t := wire.NewMsgTx(1)
+			var hsh chainhash.Hash
+			copy(hsh[:], r.Bytes(32))
+			t.AddTxIn(wire.NewTxIn(wire.NewOutPoint(&hsh, uint32(i)), nil))
+			m.AddTransaction(t)
+		}
+		rep.Histogram["sparse_big_block"]++
+		firsts := [][]opSpec{
+			{{"tx", 0}},
+			{{"txhash", 1}, {"tx", 3}},
+			{{"tx", int64(n / 2)}},
+			{{"tx", int64(n - 1)}},
+			{{"txhash", 255}, {"tx", 256}},
+			{{"tx", 1023}, {"txhash", 0}},
+			{{"tx", 1024}},
+		}
+		for fi, first := range firsts {
+			ok := true
+			for _, o := range first {
+				ok = ok && o.Arg < int64(n)
+			}
+			if !ok || (n > 5000 && fi > 2) {
+				continue
+			}
+			ctor := ctors[fi%4]
+			h := mkHistory(r, ctor, m, 0)
+			h.Ops = append(append([]opSpec{}, first...), opSpec{"txs", 0}, opSpec{"tx", int64(n - 1)}, opSpec{"txhash", int64(n / 3)}, opSpec{"txs", 0}, opSpec{"tx", int64(n)})
+			runHistory(h, false)
 		}
 	}
 
